@@ -236,10 +236,16 @@ pub fn gen_plan(ch: &mut Choices, mode: &str, thorough: bool) -> Plan {
 
     // 2024-05-27T03:00:00Z plus an offset, sometimes right before a period boundary
     let base = 1_716_778_800u64;
-    let start = match ch.weighted(&[4, 2, 2]) {
+    let start = match ch.weighted(&[8, 4, 4, 1, 1, 1, 1]) {
         0 => Duration::from_millis(base * 1000 + ch.choose(3_600_000) as u64),
         1 => Duration::from_millis((base + 3600) * 1000 - 1 - ch.choose(2000) as u64),
-        _ => Duration::from_millis((base + 21 * 3600) * 1000 - 1 - ch.choose(2000) as u64),
+        2 => Duration::from_millis((base + 21 * 3600) * 1000 - 1 - ch.choose(2000) as u64),
+        // calendar edges: the last seconds of a leap day, of a year, of February in a non-leap century-rule year
+        // (2100 is not a leap year), and the first second of the epoch (a clock that was never set)
+        3 => Duration::from_millis(1_709_251_200_000 - 1 - ch.choose(2000) as u64), // 2024-02-29T23:59:59.999Z
+        4 => Duration::from_millis(1_704_067_200_000 - 1 - ch.choose(2000) as u64), // 2023-12-31T23:59:59.999Z
+        5 => Duration::from_millis(4_107_542_400_000 - 1 - ch.choose(2000) as u64), // 2100-02-28T23:59:59.999Z
+        _ => Duration::from_millis(ch.choose(1500) as u64),                          // 1970-01-01T00:00:00Z
     };
 
     let mut existing = Vec::new();
